@@ -44,14 +44,18 @@ def _c05(prop, cfg, ops, log, outcome):
     ds = {"enabled": False, "mode": "teleop"}
     ds_at = {}
     utia, utia_at = bool(cfg["use_teleop_in_auto"]), {}      # (changed only outside autonomous periods)
+    pcur, p_at = p, {}                                        # control_loop_wait_time held by the robot object
     for i, r in enumerate(log):
         ds_at[i] = "disabled" if not ds["enabled"] else ds["mode"]
         utia_at[i] = utia
+        p_at[i] = pcur
         for act in list(ev.get((r[0], r[1]), ())) + list(ev.get((r[0], "*"), ())):
             if act[0] == "ds":
                 ds = {"enabled": bool(act[1]), "mode": act[2]}
             elif act[0] == "utia":
                 utia = bool(act[1])
+            elif act[0] == "period":
+                pcur = int(act[1] * 1e6)
     for (a, b) in segs:
         w = log[b]
         body = log[a:b]
@@ -60,6 +64,10 @@ def _c05(prop, cfg, ops, log, outcome):
         for j, r in enumerate(body):
             if r[0].endswith(HOOK_SUFFIX):
                 k = j + 1
+        for j, r in enumerate(body):
+            if r[0].endswith("Init") and r[0].startswith("robot."):
+                # a mode session begins: it keeps the period the robot object holds right after its ...Init() hook
+                p = p_at.get(a + j + 1, pcur)
         it = body[k:]
         if not it:
             _fail(prop, "empty_iteration", b, "an iteration reached its wait without running anything")
